@@ -54,7 +54,7 @@ def main(tier):
         else:
             flt = [n for n, s in named_specs(tree) if s["t"] in ("seq", "list", "dict", "block")]
         cases.append({"seed": ck.seed * 1000 + i, "dtype": ["float32", "float16", "bfloat16"][i % 3], "weights": wq[i % 6], "activations": aq[(i // 2) % 6], "tree": tree, "filter": flt,
-                      "variants": [rng.randint(0, 11), rng.randint(0, 11)], "explicit_none_filter": flt is None and rng.random() < 0.3})
+                      "variants": [rng.randint(0, 11), rng.randint(0, 11)], "explicit_none_filter": flt is None and rng.random() < 0.3, "optimizer": "clip" if rng.random() < 0.2 else None})
     for c in cases:
         if c["dtype"] == "bfloat16" and c["weights"] == "qint8" and c["activations"] is None:
             # F14 (C07): bfloat16 activations x qint8 weights with in_features % 4 == 0 and % 16 != 0 crash the interpreter in torch._weight_int8pack_mm;
@@ -69,6 +69,11 @@ def main(tier):
     cases.append({"seed": 12, "dtype": "float32", "weights": "qint4", "activations": "qint8", "filter": None, "variants": [1], "directed": "shared",
                   "tree": {"t": "seq", "ch": [{"t": "conv", "cin": 4, "cout": 4, "k": 3, "stride": 1, "padding": 1, "dilation": 1, "groups": 1, "bias": True, "padding_mode": "zeros", "key": "c"},
                                               {"t": "relu"}, {"t": "ref", "to": "c"}]}})
+    # directed: weight tying between an eligible module and one that must stay untouched (lm_head.weight is embedding.weight)
+    for k, (wq_, aq_, dt_) in enumerate([("qint8", None, "float32"), ("qint4", "qint8", "float16")]):
+        cases.append({"seed": 17 + k, "dtype": dt_, "weights": wq_, "activations": aq_, "filter": None, "variants": [0], "directed": "tied",
+                      "tree": {"t": "block", "ch": [["embed", {"t": "emb", "n": 24, "d": 16, "key": "e"}], ["body", {"t": "seq", "ch": [{"t": "linear", "in": 16, "out": 16, "bias": True}, {"t": "relu"}]}],
+                                                    ["head", {"t": "linear", "in": 16, "out": 24, "bias": False, "tie_weight_to": "e"}]]}})
     # directed: LayerNorm without affine parameters, with quantized activations
     cases.append({"seed": 15, "dtype": "float32", "weights": "qint8", "activations": "qint8", "filter": None, "variants": [0, 1], "directed": "ln-no-affine",
                   "tree": {"t": "seq", "ch": [{"t": "ln", "shape": [8], "affine": False, "bias": False, "eps": 1e-5}, {"t": "linear", "in": 8, "out": 4, "bias": True}]}})
@@ -90,7 +95,7 @@ def main(tier):
         ck.finish("coqc GenMod.v TieMod.v C08.v")
     coq_cases = []
     for c, r in zip(cases, res):
-        cfg = {k: c[k] for k in ("seed", "dtype", "weights", "activations", "filter")} | {"tree": c["tree"], "directed": c.get("directed")}
+        cfg = {k: c[k] for k in ("seed", "dtype", "weights", "activations", "filter")} | {"tree": c["tree"], "directed": c.get("directed"), "optimizer": c.get("optimizer")}
         if not r["ok"]:
             ck.violation(f"quantize() raised {r['exn']}: {r.get('msg')}", {"case": cfg, "exception": r})
             continue
